@@ -38,6 +38,7 @@ def run(rep: core.Report):
     from rules import shared_freshwrite, shared_readonly
 
     shared_readonly.run(rep, "R20m", ["phonopy/qha/core.py", "phonopy/qha/eos.py", "phonopy/api_qha.py"], 5)
+    _r20n(rep)
     shared_freshwrite.run(rep, "R20l", ["phonopy/qha/core.py"], 0)
     rep.rule("R20a", "E(V0)=E0, E'(V0)=0, V0 E''(V0)=B0, dB/dP|V0=B0' for each EOS as written (differentiation + substitution)", 12)
     rep.rule("R20b", "pressure enters as +P*V/EVAngstromToGPa in both constructors; EVAngstromToGPa = EV*1e21", 3)
@@ -643,10 +644,42 @@ def _r20f(rep):
           "Grueneisen parameter is not beta*K_T*V/Cv with Cv converted J/K/mol -> eV/K -> GPa A^3/K at one index")
 
 
+def _r20n(rep):
+    """The equation of state chosen by name reaches every fit as that name (or as something the receiver understands)."""
+    rep.rule("R20n", "EOS wiring: get_eos maps a NAME to a function and falls back to Vinet for anything else, so whatever a caller hands to a constructor that resolves its eos argument by get_eos must be the name: PhonopyQHA passes the user's eos string (not an already resolved function) to BulkModulus and QHA unless the receiving constructor tests callable(eos) itself; otherwise the per-temperature fits silently use Vinet while the static fit uses the requested EOS", 2)
+    CORE_ = "phonopy/qha/core.py"
+    API_ = "phonopy/api_qha.py"
+    accepts = {}
+    for cname in ("QHA", "BulkModulus"):
+        init = core.find_def(CORE_, f"{cname}.__init__")
+        if "eos" not in [a.arg for a in init.args.args + init.args.kwonlyargs]:
+            raise AnalysisError(f"R20n: {cname}.__init__ lost its eos parameter")
+        resolves = [c for c in ast.walk(init) if isinstance(c, ast.Call) and core.src(c.func).endswith("get_eos")]
+        guarded = any(isinstance(c, ast.Call) and core.src(c.func) == "callable" and c.args and core.src(c.args[0]) == "eos" for c in ast.walk(init))
+        accepts[cname] = guarded or not resolves
+    tree = core.parse(API_)
+    n = 0
+    for fn in [x for x in ast.walk(tree) if isinstance(x, ast.FunctionDef)]:
+        for c in ast.walk(fn):
+            if not (isinstance(c, ast.Call) and isinstance(c.func, ast.Name) and c.func.id in accepts):
+                continue
+            arg = next((k.value for k in c.keywords if k.arg == "eos"), None)
+            if arg is None:
+                continue
+            v = core.resolve_name(fn, arg)
+            resolved = any(isinstance(x, ast.Call) and core.src(x.func).endswith("get_eos") for x in ast.walk(v))
+            n += 1
+            rep.instance("R20n", API_, core.qualname_of(fn), f"{c.func.id}(eos={core.norm(core.src(v), 50)})", (not resolved) or accepts[c.func.id],
+                         f"{c.func.id} receives an already resolved EOS function ('{core.norm(core.src(v), 60)}') but resolves its argument with get_eos(), which returns the Vinet function for anything that is not one of the three names: the fits made by {c.func.id} silently use Vinet whatever EOS was requested", line=c.lineno)
+    if n < 2:
+        raise AnalysisError(f"R20n: only {n} constructions with eos= found in {API_}")
+
+
 def selftest():
     V = []
     b = lambda name, file, old, new, rule, expect="", **kw: V.append(dict(name=name, kind="break", file=file, old=old, new=new, rule=rule, expect=expect, **kw))
     n = lambda name, file, old, new, **kw: V.append(dict(name=name, kind="neutral", file=file, old=old, new=new, **kw))
+    b("PhonopyQHA hands a resolved EOS function to QHA", "phonopy/api_qha.py", "                eos=eos,", "                eos=get_eos(eos),", "R20n", "QHA(")
     b("Birch-Murnaghan coefficient 9/8", EOS, "return p[0] + 9.0 / 16 * p[3] * p[1] * (", "return p[0] + 9.0 / 8 * p[3] * p[1] * (", "R20a", "birch_murnaghan")
     b("Vinet exponent", EOS, "        xi = 3.0 / 2 * (p[2] - 1)", "        xi = 3.0 / 2 * (p[2] + 1)", "R20a", "vinet")
     b("Murnaghan reference term", EOS, "            - p[1] * p[3] / (p[2] - 1)", "            - p[1] * p[3] / p[2]", "R20a", "murnaghan")
